@@ -144,16 +144,25 @@ Section Steps.
     end.
 End Steps.
 
+(* the method `def get(self): return self.v` of a generated class, as InspectFunction.inspect_fun sees it (it is
+   analysed with the class's source lines, argument context and path, like every method): the only Name of its body is
+   `self`, which is not a name of the module (ObjectRetrieval finds nothing: rejected, neither a variable nor an
+   external dependency) and it contains no call.  Its signature is therefore X(body_sig(class lines) + argpairs(A)). *)
+Definition get_body : body := Body [] [] SNil.
+
+(* a class (InspectFunction.inspect_class): one body per FunctionDef of the class body, in source order.  The
+   statements are those of __init__; its parameters are the class's (inspect.signature of a class drops `self`);
+   `self` is not a module name, and `self.v = ...` only marks `self` after the last statement. *)
 Fixpoint discover (f : mfn) : fn :=
   match f with
-  | MFn cname tag raises lines params annot modvars helpers stmts =>
-    Fn cname tag raises lines params annot false
+  | MFn cname tag raises lines params annot is_class modvars helpers stmts =>
+    Fn cname tag raises lines params annot is_class
        (BCons (Body (vars_of modvars) (exts_of modvars helpers)
                     (steps_of (stmts_steps discover (read_names modvars) 0 [salt_name] stmts)))
-              BNil)
+              (if is_class then BCons get_body BNil else BNil))
   end.
 
-(* the single body of an analysed function, as lists *)
+(* the body of an analysed function (for a class: of its __init__), as lists *)
 Definition first_body (f : fn) : body :=
   match fn_bodies f with BCons b _ => b | BNil => Body [] [] SNil end.
 Definition body_vars (b : body) : list (bytes * pyval) := match b with Body v _ _ => v end.
